@@ -156,7 +156,7 @@ func runC08(res *hx.Result, rng *hx.Rng, tier string, outdir string) {
 			cls.WriteByte(byte('0' + c))
 			cuts++
 			// the same cut through the other reader kinds the code meets in practice
-			for rk := 1; rk <= 2 && c == ocErr; rk++ {
+			for rk := 1; rk <= 3 && c == ocErr; rk++ {
 				readerKind = rk
 				if c2 := decodeAt(kind, t, enc[:k]); c2 != ocErr {
 					c = c2
@@ -194,8 +194,11 @@ func runC08(res *hx.Result, rng *hx.Rng, tier string, outdir string) {
 		var b bytes.Buffer
 		m.Write(&b)
 		enc := b.Bytes()
-		for rk := 0; rk <= 1; rk++ {
+		for rk := 0; rk <= 3; rk++ {
 			readerKind = rk
+			if rk == 2 {
+				continue // one byte per Read over a MiB payload is only slow
+			}
 			if c := decodeAt(k8Msg, nil, enc); c != ocOK {
 				res.Fail("full-encoding-refused", fmt.Sprintf("message with a %d-byte payload is refused (class %d, reader kind %d)", n, c, rk))
 			}
